@@ -227,6 +227,24 @@ def switches_on_option_result(body, blk, term):
     return out
 
 
+NONE_PRESERVING = re.compile(r"option::Option::<T>::(map|cloned|copied|as_ref|as_mut|as_deref|as_deref_mut|inspect)$")
+
+
+def switches_on_option_result_through_adaptors(body, blk, term, depth=3):
+    """switches_on_option_result, also when the Option first goes through adaptors whose result is None exactly when their receiver is
+    (`table.get_mutable(id).map(|c| c.borrow().clone())`, `.cloned()`, `.as_ref()`): `match opt.map(f) { Some(v) => A, None => B }` tests the same
+    presence as `match opt { Some(c) => A', None => B }`. -> [(switch_block, some_target, none_target)]"""
+    out = switches_on_option_result(body, blk, term)
+    if out or depth <= 0 or term["d"][1] != "":
+        return out
+    al = set(_value_aliases(body, term["d"][0], through_refs=True))
+    for i, t in body.calls():
+        cal = t.get("f") or t["tf"]
+        if NONE_PRESERVING.search(cal) and t["args"] and isinstance(t["args"][0], list) and t["args"][0][0] in al and t["args"][0][1] == "" and body.dominates(blk, i):
+            out += switches_on_option_result_through_adaptors(body, i, t, depth - 1)
+    return out
+
+
 _VARIANT_INDEX = {"Ok": 0, "Err": 1, "None": 0, "Some": 1, "Continue": 0, "Break": 1}
 _BRANCH_OF = {"Ok": "Continue", "Err": "Break", "Some": "Continue", "None": "Break"}
 _TRACKED_ADT = re.compile(r"(result::Result|option::Option|ops::control_flow::ControlFlow)$")
